@@ -8,5 +8,9 @@ mkdir -p bin
 cat "$REPO_DIR/go.sum" harness/go.sum.extra 2>/dev/null | sort -u > harness/go.sum
 python3 overlay/gen.py > bin/overlay.json
 (cd harness && "$GO" build -tags verif -overlay "$VERIF_DIR/bin/overlay.json" -o "$VERIF_DIR/bin/vcheck" ./cmd/vcheck && "$GO" build -o "$VERIF_DIR/bin/vconv" ./cmd/vconv)
+if [ "${1:-}" = race ]; then
+  # C20: the same binary with the race detector
+  (cd harness && "$GO" build -race -tags verif -overlay "$VERIF_DIR/bin/overlay.json" -o "$VERIF_DIR/bin/vcheck-race" ./cmd/vcheck)
+fi
 # C19 drives the real router through a test binary of package main (overlay adds the test file and the web/dist stub)
 (cd "$REPO_DIR" && "$GO" test -c -tags verif -vet=off -overlay "$VERIF_DIR/bin/overlay.json" -o "$VERIF_DIR/bin/c19.test" ./cmd/pkappa2)
